@@ -248,6 +248,9 @@ func workerEnv(id, tier string, seed uint64, shard, nshards int, out string, ope
 
 // replayOne runs one case file in a fresh process. ok=true: the case passes.
 func replayOne(bin, id, tier, file, out string, open []string, race bool) (ok bool, res runResult) {
+	if isFuzzFile(file) {
+		return replayFuzz(bin, id, file, out, race)
+	}
 	env := workerEnv(id, tier, 1, 0, 1, out, open, "VERIF_REPLAY="+file)
 	mem := 8
 	if race {
@@ -255,6 +258,39 @@ func replayOne(bin, id, tier, file, out string, open []string, race bool) (ok bo
 	}
 	res = runWorker(bin, env, []string{"-test.run", "^TestReplay$", "-test.timeout", "10m", "-test.count=1"}, 5*time.Minute, memOrUnlimited(mem))
 	return res.exit == 0 && bytes.Contains(res.out, []byte("REPLAY-OK")), res
+}
+
+// isFuzzFile reports whether the file is a native fuzz corpus entry.
+func isFuzzFile(file string) bool {
+	b, err := os.ReadFile(file)
+	return err == nil && (bytes.HasPrefix(b, []byte("go test fuzz v1")) || bytes.HasPrefix(b, []byte(seedFailureMarker)))
+}
+
+// a fuzz target whose own seed corpus (f.Add) fails leaves no crasher file; the driver then saves a marker
+// file, and replaying it runs the target's seed corpus as a plain test
+const seedFailureMarker = "verif: seed corpus failure"
+
+// replayFuzz re-runs a saved native fuzz input: the file name is
+// <FuzzTarget>-<hash>; it is placed into testdata/fuzz/<FuzzTarget>/ below the
+// worker's directory and the target is run as a plain test.
+func replayFuzz(bin, id, file, out string, race bool) (bool, runResult) {
+	base := filepath.Base(file)
+	i := strings.Index(base, "-")
+	if i < 0 {
+		return false, runResult{exit: 2, out: []byte("bad fuzz file name " + base)}
+	}
+	target := base[:i]
+	dir := filepath.Join(filepath.Dir(bin), "testdata", "fuzz", target)
+	os.MkdirAll(dir, 0o755)
+	b, _ := os.ReadFile(file)
+	if !bytes.HasPrefix(b, []byte(seedFailureMarker)) {
+		dst := filepath.Join(dir, base[i+1:])
+		os.WriteFile(dst, b, 0o644)
+		defer os.Remove(dst)
+	}
+	env := workerEnv(id, "quick", 1, 0, 1, out, nil)
+	res := runWorker(bin, env, []string{"-test.run", "^" + target + "$", "-test.timeout", "10m", "-test.count=1"}, 5*time.Minute, memOrUnlimited(8))
+	return res.exit == 0, res
 }
 
 func memOrUnlimited(gb int) int {
@@ -362,6 +398,12 @@ func check(id, tier string) int {
 		seed = v
 	}
 	work := filepath.Join(verifRoot, "work", id+"-"+tier)
+	// VERIF_SCRATCH redirects everything a run writes (work files, found replays, evidence) to another
+	// directory, so that sensitivity runs against scratch copies do not disturb /verif
+	scratch := os.Getenv("VERIF_SCRATCH")
+	if scratch != "" {
+		work = filepath.Join(scratch, "work-"+id+"-"+tier)
+	}
 	os.RemoveAll(work)
 	if err := os.MkdirAll(work, 0o755); err != nil {
 		fmt.Fprintln(os.Stderr, err)
@@ -395,6 +437,9 @@ func check(id, tier string) int {
 			continue
 		}
 		w := filepath.Join(verifRoot, f.Witness)
+		if os.Getenv("VERIF_NOREPLAY") != "" && f.Status != "open" {
+			continue
+		}
 		if f.Status == "open" {
 			openWitness[w] = true
 			if _, err := os.Stat(w); err != nil {
@@ -416,7 +461,12 @@ func check(id, tier string) int {
 	}
 	// 2. replay tier: every saved case (fixed findings, shrunk failures of earlier runs, hand-picked regressions)
 	files, _ := filepath.Glob(filepath.Join(verifRoot, "replays", id, "*.json"))
+	fuzzFiles, _ := filepath.Glob(filepath.Join(verifRoot, "replays", id, "fuzz", "*"))
+	files = append(files, fuzzFiles...)
 	sort.Strings(files)
+	if os.Getenv("VERIF_NOREPLAY") != "" {
+		files = nil // sensitivity runs: generated search only
+	}
 	var mu sync.Mutex
 	var wg sync.WaitGroup
 	sem := make(chan struct{}, 8)
@@ -550,6 +600,9 @@ func check(id, tier string) int {
 
 	// 5. failures, deaths, hangs
 	replayDir := filepath.Join(verifRoot, "replays", id)
+	if scratch != "" {
+		replayDir = filepath.Join(scratch, "found", id)
+	}
 	seenSub := map[string]bool{}
 	for s := 0; s < nsh; s++ {
 		out := filepath.Join(work, fmt.Sprintf("shard-%d", s))
@@ -689,8 +742,12 @@ func check(id, tier string) int {
 		"inconclusive":   inconclusive,
 	}
 	eb, _ := json.MarshalIndent(ev, "", " ")
-	os.MkdirAll(filepath.Join(verifRoot, "evidence"), 0o755)
-	os.WriteFile(filepath.Join(verifRoot, "evidence", id+".json"), eb, 0o644)
+	evDir := filepath.Join(verifRoot, "evidence")
+	if scratch != "" {
+		evDir = filepath.Join(scratch, "evidence")
+	}
+	os.MkdirAll(evDir, 0o755)
+	os.WriteFile(filepath.Join(evDir, id+".json"), eb, 0o644)
 
 	// 8. verdict
 	if len(violations) > 0 {
@@ -908,6 +965,9 @@ func runFuzz(id string, ft fuzzTarget, work string) (map[string]interface{}, str
 			src := filepath.Join(crashDir, f)
 			b, _ := os.ReadFile(src)
 			dstDir := filepath.Join(verifRoot, "replays", id, "fuzz")
+			if sc := os.Getenv("VERIF_SCRATCH"); sc != "" {
+				dstDir = filepath.Join(sc, "found", id, "fuzz")
+			}
 			os.MkdirAll(dstDir, 0o755)
 			dst := filepath.Join(dstDir, ft.Name+"-"+f)
 			os.WriteFile(dst, b, 0o644)
@@ -915,6 +975,17 @@ func runFuzz(id string, ft fuzzTarget, work string) (map[string]interface{}, str
 			fmt.Printf("native fuzz %s found a failing input:\n%s\n", ft.Name, tail(out, 1500))
 			return info, dst
 		}
+	}
+	if bytes.Contains(out, []byte("failure while testing seed corpus entry")) {
+		dstDir := filepath.Join(verifRoot, "replays", id, "fuzz")
+		if sc := os.Getenv("VERIF_SCRATCH"); sc != "" {
+			dstDir = filepath.Join(sc, "found", id, "fuzz")
+		}
+		os.MkdirAll(dstDir, 0o755)
+		dst := filepath.Join(dstDir, ft.Name+"-seedcorpus")
+		os.WriteFile(dst, []byte(seedFailureMarker+" of "+ft.Name+"\n"+tail(out, 1500)), 0o644)
+		fmt.Printf("native fuzz %s: an entry of the target's own seed corpus fails:\n%s\n", ft.Name, tail(out, 1200))
+		return info, dst
 	}
 	if bytes.Contains(out, []byte("no fuzz tests to fuzz")) || bytes.Contains(out, []byte("no tests to run")) {
 		info["skipped"] = "target not present"
